@@ -210,7 +210,7 @@ path_harness!(c01d_empty_file, {
 // (writer side only: the reader's checksum branch on a zero-length buffer trips Kani's deallocation model -
 // "rust_dealloc must be called on an object whose allocated size matches its layout" - on the unchanged tree, an
 // artefact of the zero-capacity Vec clone, not a property violation; the one-byte file below goes through the reader)
-path_harness!(c01d_empty_file_crc, {
+fn empty_file_crc_body() {
     let data: [u8; 0] = [];
     unsafe { CODEC_SHRINKS = false; ORIG_N = 0; }
     let b = ArchiveBuilder::new().generate_crcs(true);
@@ -229,7 +229,9 @@ path_harness!(c01d_empty_file_crc, {
         assert!(out.len() == 0, "bytes written for an empty file without a checksum flag");
     }
     std::mem::forget((b, out));
-});
+}
+path_harness!(c01d_empty_file_crc, { empty_file_crc_body() });
+path_harness!(c10d_empty_file_checksum_written, { empty_file_crc_body() });
 path_harness!(c01d_one_byte_file_crc, {
     let data: [u8; 1] = kani::any();
     unsafe { CODEC_SHRINKS = false; ORIG_N = 0; }
@@ -508,3 +510,34 @@ macro_rules! ref_enc {
 ref_enc!(c02d_reference_encrypted, false, 0);
 ref_enc!(c02d_reference_encrypted_fixkey, true, 0);
 ref_enc!(c02d_reference_encrypted_fixkey_embedded, true, 64);
+
+// ---------------------------------------------------------------- C01.d break-even: the REAL compress() decision between builder and reader
+// only the codec behind compress() is replaced (it returns exactly len-1 arbitrary bytes, so that method byte + payload
+// is as long as the file): whatever compress() decides, the builder's flag/size and the reader's raw-or-compressed
+// decision must agree and the content must come back
+static mut ZOUT: [u8; 6] = [0; 6];
+static mut ZLEN: usize = 0;
+fn zlib_stub(_d: &[u8]) -> Result<Vec<u8>> {
+    let z = unsafe { ZOUT };
+    Ok(z[..unsafe { ZLEN }].to_vec())
+}
+macro_rules! break_even {
+    ($name:ident, $zlen:expr) => {
+        #[kani::proof]
+        #[kani::unwind(80)]
+        #[kani::stub(std::fmt::format, vio::fmt_stub)]
+        #[kani::stub(<std::fs::File as std::io::Read>::read, memfile::mem_read)]
+        #[kani::stub(<std::fs::File as std::io::Read>::read_buf, memfile::mem_read_buf)]
+        #[kani::stub(<std::fs::File as std::io::Seek>::seek, memfile::mem_seek)]
+        #[kani::stub(crate::compression::algorithms::zlib::compress, zlib_stub)]
+        #[kani::stub(crate::compression::decompress::decompress, decompress_stub)]
+        fn $name() {
+            let data: [u8; 5] = kani::any();
+            unsafe { ZOUT = kani::any(); ZLEN = $zlen; ORIG_N = 0; }
+            let cfg = Cfg { compression: 2, encrypt: false, fix_key: false, crc: false, file_pos: 32 };
+            roundtrip(&data, "a\\b.txt", "a\\b.txt", &cfg);
+        }
+    };
+}
+break_even!(c01d_su_break_even, 4);
+break_even!(c01d_su_codec_expands, 6);
